@@ -38,7 +38,7 @@ class _Schema(Contract):
     sprops = eprops = ()
     vprops = ("C09",)
     tprops = ("C09",)
-    fprops = ("C09",)
+    fprops = ("C09", "C08")
     guard_relevant = False
 
     def use_stub(self, c, *a, **k):
@@ -49,6 +49,11 @@ class _Schema(Contract):
 
     def br(self, c):
         return c.w.modules["pysnark.branching"]
+
+    def post_exc(self, c, e, *a, **k):
+        # C08: whatever makes a block construct fail (on the pinned tree every secret condition does, KF-22..24), the
+        # exception leaves the guard, the error flag and the constant one as they were before the region
+        return {"F.guard_state_restored": self.state_clean(c)}
 
     def state_clean(self, c):
         e, now = c.entry, c.now
